@@ -217,8 +217,8 @@ fn op_text(op: &Value, id: usize) -> String {
     match op["op"].as_str().unwrap_or("") {
         "dif" => format!("dif({}, {})", term_text(&term_of(&op["s"])), term_text(&term_of(&op["t"]))),
         "eq" => format!("{} = {}", term_text(&term_of(&op["s"])), term_text(&term_of(&op["t"]))),
-        "freeze" => format!("freeze({}, c26_mark(w({})))", VNAMES[op["v"].as_u64().unwrap_or(0) as usize % 3], id),
-        "when" => format!("when({}, c26_mark(w({})))", cond_text(&op["cond"]), id),
+        "freeze" => format!("freeze({}, (c26_mark(w({})){}))", VNAMES[op["v"].as_u64().unwrap_or(0) as usize % 3], id, act_text(&op["act"])),
+        "when" => format!("when({}, (c26_mark(w({})){}))", cond_text(&op["cond"]), id, act_text(&op["act"])),
         _ => "true".into(),
     }
 }
@@ -239,43 +239,70 @@ struct Expect {
 #[derive(Clone)]
 struct Pending {
     difs: Vec<(T, T)>,
-    /// (goal id, freeze var)
-    freezes: Vec<(usize, usize)>,
-    /// (goal id, condition)
-    whens: Vec<(usize, Value)>,
+    /// (goal id, freeze var, action)
+    freezes: Vec<(usize, usize, Value)>,
+    /// (goal id, condition, action)
+    whens: Vec<(usize, Value, Value)>,
 }
 
-/// after a change of the store: wake-ups and dif violation
+/// the binding a woken goal performs after its mark (`null`: none)
+fn act_text(act: &Value) -> String {
+    if act.is_null() {
+        String::new()
+    } else {
+        format!(", {} = {}", VNAMES[act["v"].as_u64().unwrap_or(0) as usize % 3], term_text(&term_of(&act["t"])))
+    }
+}
+
+/// after a change of the store: wake-ups (whose actions may bind further variables and wake
+/// further goals: iterate to a fixpoint) and dif violation
 fn settle(st: &mut Store, p: &mut Pending, woken: &mut Vec<usize>) -> bool {
-    // violated dif?
-    let mut keep = vec![];
-    for (s, t) in p.difs.clone() {
-        match st.dif_state(&s, &t) {
-            Some(true) => return false,
-            Some(false) => {}
-            None => keep.push((s, t)),
+    loop {
+        // violated dif?
+        let mut keep = vec![];
+        for (s, t) in p.difs.clone() {
+            match st.dif_state(&s, &t) {
+                Some(true) => return false,
+                Some(false) => {}
+                None => keep.push((s, t)),
+            }
+        }
+        p.difs = keep;
+        let mut actions: Vec<Value> = vec![];
+        let mut fk = vec![];
+        for (id, v, act) in p.freezes.clone() {
+            if st.nonvar(&T::V(v)) {
+                woken.push(id);
+                actions.push(act);
+            } else {
+                fk.push((id, v, act));
+            }
+        }
+        p.freezes = fk;
+        let mut wk = vec![];
+        for (id, c, act) in p.whens.clone() {
+            if st.cond(&c) {
+                woken.push(id);
+                actions.push(act);
+            } else {
+                wk.push((id, c, act));
+            }
+        }
+        p.whens = wk;
+        let mut changed = false;
+        for act in actions {
+            if act.is_null() {
+                continue;
+            }
+            if !st.unify(&T::V(act["v"].as_u64().unwrap_or(0) as usize % 3), &term_of(&act["t"])) {
+                return false;
+            }
+            changed = true;
+        }
+        if !changed {
+            return true;
         }
     }
-    p.difs = keep;
-    let mut fk = vec![];
-    for (id, v) in p.freezes.clone() {
-        if st.nonvar(&T::V(v)) {
-            woken.push(id);
-        } else {
-            fk.push((id, v));
-        }
-    }
-    p.freezes = fk;
-    let mut wk = vec![];
-    for (id, c) in p.whens.clone() {
-        if st.cond(&c) {
-            woken.push(id);
-        } else {
-            wk.push((id, c));
-        }
-    }
-    p.whens = wk;
-    true
 }
 
 fn canon_term(st: &Store) -> String {
@@ -310,11 +337,11 @@ fn model(ops: &[(usize, Value)], probes: &[Value]) -> Expect {
             }
             "eq" => st.unify(&term_of(&op["s"]), &term_of(&op["t"])) && settle(&mut st, &mut p, &mut woken),
             "freeze" => {
-                p.freezes.push((*id, op["v"].as_u64().unwrap_or(0) as usize % 3));
+                p.freezes.push((*id, op["v"].as_u64().unwrap_or(0) as usize % 3, op["act"].clone()));
                 settle(&mut st, &mut p, &mut woken)
             }
             "when" => {
-                p.whens.push((*id, op["cond"].clone()));
+                p.whens.push((*id, op["cond"].clone(), op["act"].clone()));
                 settle(&mut st, &mut p, &mut woken)
             }
             _ => true,
@@ -501,9 +528,11 @@ impl C26 {
                 let s = if rng.chance(3, 4) { json!({"v": rng.below(3)}) } else { gen_term(rng, 2) };
                 json!({"op": "eq", "s": s, "t": gen_term(rng, 2)})
             } else if r < 82 {
-                json!({"op": "freeze", "v": rng.below(3)})
+                let act = if rng.chance(1, 3) { json!({"v": rng.below(3), "t": gen_term(rng, 1)}) } else { Value::Null };
+                json!({"op": "freeze", "v": rng.below(3), "act": act})
             } else {
-                json!({"op": "when", "cond": gen_cond(rng, 2)})
+                let act = if rng.chance(1, 3) { json!({"v": rng.below(3), "t": gen_term(rng, 1)}) } else { Value::Null };
+                json!({"op": "when", "cond": gen_cond(rng, 2), "act": act})
             };
             ops.push(op);
         }
